@@ -449,6 +449,14 @@ impl Property for Algebra {
             o.fail("invert_state:not-an-inverse", format!("add_state(x, invert_state(x)) = {:?} for x = {:?}; documented to come out zero", setsum::add_state(c.a, setsum::invert_state(c.a)), c.a));
             return o;
         }
+        // the in-place operators are the operators, for every operand
+        let (mut pa, mut ma) = (a, a);
+        pa += b;
+        ma -= b;
+        if pa != a + b || ma != a - b {
+            o.fail("assign-operators-differ", format!("a += b gives {pa:?} (a + b = {:?}), a -= b gives {ma:?} (a - b = {:?}); a={a:?} b={b:?}", a + b, a - b));
+            return o;
+        }
         if a - a != Setsum::default() {
             o.fail("law:a-a", format!("a - a = {:?} is not the empty setsum; a = {a:?}", a - a));
             return o;
